@@ -299,6 +299,9 @@ type fxStreamStats struct{ Packets, Nacks, Bytes uint64 }
 type sStats struct {
 	fxStreamStats
 	internal int
+	Lost     int64
+	Jitter   float64
+	Fraction float64
 }
 
 type sPkt interface{ SSRCs() []uint32 }
@@ -497,4 +500,57 @@ func (m *p3Mark) observe(seq uint16) {
 		m.GoodP3hi = seq
 	}
 	m.BadP3hi = seq // every packet, in order or not
+}
+
+// ---- S6 ---------------------------------------------------------------------------------------------------------------
+
+type sReport struct {
+	ssrc     uint32
+	lost     uint32
+	jitter   uint32
+	fraction uint8
+	lsr      uint32
+}
+
+// recordGoodS6 copies the three figures of a matching report together; the round-trip figure (which needs more than
+// the report) is conditional.
+func (r *sRec) recordGoodS6(st sStats, reports []sReport, history []uint32) sStats {
+	for _, rep := range reports {
+		if rep.ssrc != r.ssrc {
+			continue
+		}
+		st.Lost = int64(rep.lost)
+		st.Jitter = float64(rep.jitter) / 90000
+		for _, h := range history {
+			if h == rep.lsr {
+				st.internal++
+				break
+			}
+		}
+		st.Fraction = float64(rep.fraction) / 256
+	}
+	return st
+}
+
+// recordBadS6 skips the rest of the iteration when no round-trip sample can be taken — and with it the fraction.
+func (r *sRec) recordBadS6(st sStats, reports []sReport, history []uint32) sStats {
+	for _, rep := range reports {
+		if rep.ssrc != r.ssrc {
+			continue
+		}
+		st.Lost = int64(rep.lost)
+		st.Jitter = float64(rep.jitter) / 90000
+		found := false
+		for _, h := range history {
+			if h == rep.lsr {
+				found = true
+			}
+		}
+		if !found {
+			continue
+		}
+		st.internal++
+		st.Fraction = float64(rep.fraction) / 256
+	}
+	return st
 }
